@@ -202,6 +202,10 @@ def can_run_is_the_pattern_loop(ctx):
 
 
 def run(ctx):
+    from .C12 import failed_part_refuses_the_whole
+    failed_part_refuses_the_whole(ctx, "C07")      # a hook that failed to compile must not silently drop out of the priority list
+    from .C13 import compile_dropin_refuses_whole_unit
+    compile_dropin_refuses_whole_unit(ctx)
     from .C13 import update_removes_then_adds
     update_removes_then_adds(ctx)
     from .C06 import action_context_is_replaced_whole
